@@ -3,7 +3,8 @@
    FIN/FIN or RST close, mid-stream attach, buffer-limit overflow in one or both directions, reuse of the 4-tuple),
    shared by the scenario generator (FollowerGen) and the implementation-shaped model (FollowerImpl). *)
 EXTENDS Naturals, Sequences
-P(from, syn, ack, fin, rst, off, len) == [from |-> from, syn |-> syn, ack |-> ack, fin |-> fin, rst |-> rst, off |-> off, len |-> len, ackoff |-> 0, inc |-> FALSE]
+P(from, syn, ack, fin, rst, off, len) == [from |-> from, syn |-> syn, ack |-> ack, fin |-> fin, rst |-> rst, off |-> off, len |-> len, ackoff |-> 0, inc |-> FALSE,
+                                        x |-> 0]      \* x: further TCP flag bits the segment carries (ECE = 64, CWR = 128, URG = 32): they change nothing in C07
 Syn == [P("c", TRUE, FALSE, FALSE, FALSE, 0, 0) EXCEPT !.inc = TRUE]     \* inc: first SYN of a new incarnation (fresh ISNs)
 SynDup == P("c", TRUE, FALSE, FALSE, FALSE, 0, 0)                            \* a retransmitted SYN
 SynAck == P("s", TRUE, TRUE, FALSE, FALSE, 0, 0)
@@ -13,6 +14,8 @@ Fin(e) == P(e, FALSE, TRUE, TRUE, FALSE, 0, 0)
 FinD(e, off, len) == P(e, FALSE, TRUE, TRUE, FALSE, off, len)
 Rst(e) == P(e, FALSE, FALSE, FALSE, TRUE, 0, 0)
 H == <<Syn, SynAck, Ack("c")>>
+\* an ECN-setup handshake (RFC 3168: SYN carries ECE|CWR, SYN+ACK carries ECE), later segments with ECE / CWR / URG
+HE == << [Syn EXCEPT !.x = 192], [SynAck EXCEPT !.x = 64], Ack("c") >>
 SA == H \o <<D("c", 0, 2), D("s", 0, 2), Fin("c"), Fin("s")>>
 Scripts == <<
   SA,
@@ -27,6 +30,7 @@ Scripts == <<
   H \o <<D("s", 1, 2), D("s", 0, 1), D("c", 0, 3), Fin("c"), Rst("c")>>,
   H \o <<D("s", 2, 4), D("s", 8, 3), D("s", 0, 2)>>,                                 \* the server direction alone exceeds maxBytes
   H \o <<D("c", 2, 3), D("s", 2, 4), D("c", 0, 2)>>,                                 \* only both directions together exceed maxBytes
-  H \o <<D("s", 1, 1), D("c", 1, 1), D("s", 3, 1), D("c", 0, 1)>>                    \* chunks of both directions together exceed maxChunks
+  H \o <<D("s", 1, 1), D("c", 1, 1), D("s", 3, 1), D("c", 0, 1)>>,                   \* chunks of both directions together exceed maxChunks
+  HE \o <<[D("c", 0, 2) EXCEPT !.x = 128], [D("s", 0, 2) EXCEPT !.x = 64], [D("c", 2, 1) EXCEPT !.x = 32], [Fin("c") EXCEPT !.x = 64], Fin("s")>>
 >>
 =============================================================================
